@@ -2,6 +2,7 @@
 #include <stdio.h>
 #include <stdlib.h>
 #include "world.h"
+#include "mc.h"
 
 struct WObs OBS;
 struct WDrv DRV;
@@ -189,6 +190,9 @@ CO_IF_DRV W_IfDrv = { &DCan, &DTmr, &DNvm };
 void w_rx(CO_NODE *node, uint32_t id, uint8_t dlc, const uint8_t *d)
 {
     memset(&DRV.rx, 0, sizeof DRV.rx);
+    /* --opt longdlc=N (9..15, C01 only): a driver that hands the raw DLC code of the wire through - every full frame arrives with
+     * DLC N; the data field of a CAN frame still has eight bytes */
+    { static int longdlc = -1; if (longdlc < 0) longdlc = mc_opt("longdlc", 0); if (longdlc > 8 && dlc == 8) dlc = (uint8_t)longdlc; }
     DRV.rx.id = id; DRV.rx.dlc = dlc;
     for (int i = 0; i < 8; i++) DRV.rx.d[i] = (i < dlc && d) ? d[i] : 0;
     DRV.rx_pending = 1;
